@@ -489,7 +489,7 @@ STR_KINDS = [4, 4, 4, 12, 18, 19, 20, 21, 22, 25, 26, 27, 28, 30, 7]
 
 class Gen(object):
     def __init__(self, rng, max_depth=3, allow_any=False, allow_real10=False, allow_choice=True,
-                 allow_set=True, allow_implicit=True, allow_time=False):
+                 allow_set=True, allow_implicit=True, allow_time=False, any_ber=False):
         self.r = rng
         self.max_depth = max_depth
         self.allow_any = allow_any
@@ -497,6 +497,7 @@ class Gen(object):
         self.allow_choice = allow_choice
         self.allow_set = allow_set
         self.allow_implicit = allow_implicit
+        self.any_ber = any_ber      # ANY values in arbitrary BER form (else DER form)
 
     # --- types
     def scalar(self):
@@ -629,8 +630,34 @@ class Gen(object):
             base = 10 if (self.allow_real10 and r.random() < 0.3) else 2
             return ('real', m, base, e)
         if k == 'any':
-            inner = self.val(('int',))
-            return ('any', bytes([2, 1, r.randrange(128)]))
+            # the complete encoding of some value: scalar, constructed, definite or indefinite
+            x = r.random()
+            if x < 0.3:
+                return ('any', bytes([2, 1, r.randrange(128)]))
+            from pyasn1.codec.ber import encoder as _ber_encoder
+            from pyasn1.codec.der import encoder as _der_encoder
+            sub = Gen(r, max_depth=1, allow_any=False)
+            for _ in range(5):
+                t2 = sub.ty(1)
+                v2 = sub.val(t2)
+                if base_of(t2)[0] == 'choice' and not tags_of(t2):
+                    continue
+                try:
+                    if self.any_ber:
+                        raw = _ber_encoder.encode(build_value(t2, v2), defMode=r.random() < 0.6)
+                    else:
+                        raw = _der_encoder.encode(build_value(t2, v2))
+                except Exception:  # noqa
+                    continue
+                # only encodings that are one well-formed element (skip the stray end-of-octets region)
+                from harness import wire as _wire
+                try:
+                    nodes = _wire.read_all(raw)
+                except Exception:  # noqa
+                    continue
+                if len(nodes) == 1:
+                    return ('any', raw)
+            return ('any', bytes([5, 0]))
         if k == 'str':
             x = r.random()
             n = 0 if x < 0.15 else (r.randrange(1, 12) if x < 0.9 else r.randrange(12, 70))
